@@ -193,4 +193,6 @@ def stepOkOp (a : V) : R V := do
     outTruncate := ← (← a.get "out_truncate").asB }
   pure (phiResult (stepOK tol.close rec_))
 
+def tabularOps : List (String × (V → R V)) := [("tab_step", tabStepOp), ("tab_reset", tabResetOp), ("tab_components", tabComponentsOp), ("step_ok", stepOkOp)]
+
 end Lerax.Driver
